@@ -366,6 +366,11 @@ func (d SDoc) JSON() []byte {
 		sch := map[string]any{"type": p.Type}
 		if p.Type == "array" {
 			sch["items"] = map[string]any{"type": "string"}
+			if arr, ok := p.Default.([]any); ok && len(arr) > 0 {
+				if _, num := arr[0].(float64); num {
+					sch["items"] = map[string]any{"type": "integer"}
+				}
+			}
 		}
 		if p.Default != nil {
 			sch["default"] = p.Default
